@@ -299,6 +299,9 @@ func writeEvidence(opt *Options, rep *CheckReport, notCovered []string, violatio
 		"a contracted callee runs no function values other than its arguments (closures stored in the heap earlier are not re-entered by it)",
 		"an interface value holding a nil pointer is identified with the nil interface (typed-nil interfaces are not modelled)",
 		"a pointer-receiver method promoted through an embedded struct VALUE is called at an address unrelated to the enclosing object (such accessors are not put under contract)",
+		"strings.Split/SplitN/SplitAfter/SplitAfterN/Fields/FieldsFunc, slices.Clone and bytes.Clone return newly allocated slices (element writes through their results are alias-free)",
+		"a slice variable read from a map element (range value, v := m[k]) is linked to that element only for in-place changes made by contracted callees (sort.*): the changed slice is written back to m[k]",
+		"x.(T) with T a type parameter constrained to a union of concrete types is an exact dynamic-type test",
 		"every trusted contract listed in coverage.trusted_base",
 	}
 	ass = append(ass, rep.Assumptions...)
